@@ -373,7 +373,9 @@ PyObject* HTMC::cbincount(double rmin, // units of scale*angle in radians
                         if (dis <= maxangle) {
                             double logr = logscale + log10(dis);
 
-                            int radbin = (int) ( (logr-logrmin)/log_binsize );
+                            // floor, not a cast: a cast truncates toward zero and put
+                            // separations just below rmin into bin 0
+                            int radbin = (int) floor( (logr-logrmin)/log_binsize );
                             if (radbin >=0 && radbin < nbin) {
                                 npy_int64 *cptr = (npy_int64 *) PyArray_GETPTR1((PyArrayObject *) counts_array, radbin);
                                 *cptr += 1;
